@@ -185,6 +185,11 @@ def run(ctx: Ctx) -> None:
         ctx.ob("C19.R3", start, "'already connected' refusal has no effect", not eff_nodes and gs.exit not in refused, f"{[n.text(40) for n in eff_nodes[:2]]}")
         # the connection gets the client's stop hook
         val = setters[0][2]
+        if isinstance(val, ast.Name):
+            # the connection is built into a local first and installed from it
+            asg = [n for n in own_nodes(start.node) if isinstance(n, (ast.Assign, ast.AnnAssign)) and any(isinstance(t, ast.Name) and t.id == val.id for t in (n.targets if isinstance(n, ast.Assign) else [n.target]))]
+            if len(asg) == 1 and asg[0].value is not None:
+                val = asg[0].value
         hook_ok = False
         if isinstance(val, ast.Call) and len(val.args) >= 2:
             cv = res._callable_value(start, val.args[1])
